@@ -333,7 +333,14 @@ def oracle_c04(s_text, view_s: obs.AttrView, op, outcome, expectation, canonical
             out.append(("insert-unexpected-tokens", f"token diff {ta[p:ea]} -> {tb[p:eb]}, expected a pure insertion of one of {cands[:3]}; output {r!r}"))
         if lost_items:
             out.append(("neighbour-comment-removed", f"comments {[c[1] for c in lost_items]} dropped by an insertion; output {r!r}"))
-        if canonical and not out:
+        parent = view_s.tree if d == 0 else (view_s.layers[len(view_s.layers) - d] if 0 < d <= len(view_s.layers) else {})
+        for nm in names[:-1]:
+            ent = parent.get(nm) if isinstance(parent, dict) else None
+            parent = ent[1] if ent and ent[0] == "set" else None
+            if parent is None:
+                break
+        into_empty = parent is not None and len(parent) == 0  # an empty set has no layout to preserve
+        if canonical and not out and not into_empty:
             bp, bea, beb = _diff(s_text, r)
             if bea != bp:
                 out.append(("bytes-rewritten-on-insert", f"{s_text[bp:bea]!r} -> {r[bp:beb]!r}"))
